@@ -303,17 +303,30 @@ fn param_type_from_token(
     let mut current = token.parent();
     while let Some(node) = current {
         if let Some(param) = cst::nodes::Param::cast(node.clone()) {
-            let written = param.ty().map(|t| t.to_string())?;
-            // `self: Self` has the type the impl is for, and that is what the typer gave it
-            if written.trim() == "Self"
-                && let Some(for_type) = node
-                    .ancestors()
-                    .find_map(cst::nodes::Impl::cast)
-                    .and_then(|imp| imp.for_type())
+            let ty = param.ty()?;
+            // `Self` is the type the impl is for, wherever it stands in the parameter's type
+            // (`self: Self`, `others: Vec[Self]`), and that is what the typer gave it
+            if let Some(for_type) = node
+                .ancestors()
+                .find_map(cst::nodes::Impl::cast)
+                .and_then(|imp| imp.for_type())
             {
-                return Some(for_type.to_string().trim().to_string());
+                let for_type = for_type.to_string().trim().to_string();
+                let written: String = ty
+                    .syntax()
+                    .descendants_with_tokens()
+                    .filter_map(|element| element.into_token())
+                    .map(|token| {
+                        if token.kind() == MySyntaxKind::Ident && token.text() == "Self" {
+                            for_type.clone()
+                        } else {
+                            token.text().to_string()
+                        }
+                    })
+                    .collect();
+                return Some(written.trim().to_string());
             }
-            return Some(written);
+            return Some(ty.to_string());
         }
         if let Some(param) = cst::nodes::ClosureParam::cast(node.clone()) {
             if let Some(ty) = param.ty() {
